@@ -17,6 +17,7 @@ from mc.drivers import stores as S
 from mc.lattice import Emb
 
 FIELDS = ("type", "client", "hostname", "name", "data")
+A1 = "1"  # the fully operated bucket's id is a numeric string (equal, as a number, to the row key of the passive bucket created first)
 B2 = "B'\"%;--"  # the second operated bucket's id carries SQL-special characters
 ALL_SUBSETS = [c for k in range(1, 6) for c in itertools.combinations(FIELDS, k)]
 QUICK_SUBSETS = [("type",), ("client",), ("hostname",), ("name",), ("data",), ("type", "data"), FIELDS]
@@ -133,7 +134,7 @@ class World:
 
 def ev_content(emb, b):
     # the content is a function of the bucket only, so the state space stays finite
-    n = {"A": 0, B2: 1}.get(b, 2)
+    n = {A1: 0, B2: 1}.get(b, 2)
     e = emb.ev(n % 3, (n + 1) % 2, f"e{n}")
     return e, (S.us_of(e.timestamp), S.dus_of(e.duration), S.canon_data(e.data))
 
@@ -208,18 +209,21 @@ def enabled(w, subsets, extend):
     ops = []
     for b in _G["buckets"]:
         present = b in w.model
-        limited = b != "A"
+        limited = b != A1
         if not present:
             for m in ((1,) if limited else (0, 1, 2)):
                 ops.append((("create", b, m), True))
-            ops.append((("update", b, ("type",)), False))
+            # operations on an absent bucket must change nothing -- so extending a history with them
+            # costs no new states on a correct tree, while a tree on which a FAILED lookup / update /
+            # delete leaves something behind (a cached handle, an open transaction) gets explored from there
+            ops.append((("update", b, ("type",)), True))
             ops.append((("update", b, FIELDS), False))
-            ops.append((("delete", b), False))
-            ops.append((("lookup", b), False))
+            ops.append((("delete", b), True))
+            ops.append((("lookup", b), True))
             if b in w.stale:
-                ops.append((("describe", b, "stale"), False))
-                ops.append((("insert", b, "stale"), False))
-                ops.append((("read", b, "stale"), False))
+                ops.append((("describe", b, "stale"), True))
+                ops.append((("insert", b, "stale"), True))
+                ops.append((("read", b, "stale"), True))
         else:
             ops.append((("delete", b), True))
             # reads extend histories too: on the unchanged tree they lead back to the same canonical
@@ -307,7 +311,7 @@ def _expand(hist):
 def _cfg(ctx):
     _G["ctx"] = ctx
     _G["emb"] = Emb(ctx.base, 1_000_000)
-    _G["buckets"] = ("A", B2)
+    _G["buckets"] = (A1, B2)
 
 
 def run(ctx):
@@ -334,7 +338,7 @@ def totup(x):
 
 def run_case(ctx, case):
     _cfg(ctx)
-    _G["buckets"] = tuple(case.get("buckets", ("A",)))
+    _G["buckets"] = tuple(case.get("buckets", (A1,)))
     hist = totup(case["history"])
     op = totup(case["op"])
     w = replay(case["backend"], ctx.wdir(), hist)
